@@ -84,3 +84,8 @@ func ref_FromGetters(src *SrcG) *DstG {
 	copyInts(&dst.Scores, src.scores)
 	return dst
 }
+
+// manual_CopyC: no reference function - two outcomes are right (the field is reported as unmatched
+// and left alone, or it is copied into fresh storage by means that do not name the element type);
+// G_Extra_Unspellable states both.
+func manual_CopyC() {}
